@@ -56,6 +56,8 @@ MANIFEST = {
             "formula accepted by a strict reader, a help text, or a "
             "shielded command-line error with non-zero exit; file-fault "
             "kinds are enumerated per sampled command line in the 'files' "
+            "configuration and boundary values (0, -1, 1, +1, non-numeric) "
+            "at every numeric argv position in the 'boundary' "
             "configuration.",
     "design_ref": "DESIGN.md 4.10",
     "note": "Sampling over argv; in-process simulation of the process "
